@@ -91,6 +91,9 @@ var signer *core.CertificateChainEntry
 
 func modelVerify(result *crlreader.CRLReadResult, chains *core.CertificateChains) (*core.CertificateChainEntry, error) {
 	verifyCalls++
+	// like the real verifyCRLSignature -> FindCertificateIssuerCandidates, which walks chains.CertificateChainList
+	// without a nil check: a nil chains pointer is a crash, not a verification failure
+	_ = len(chains.CertificateChainList)
 	c := results[result]
 	if c == nil || !c.sigOK {
 		return nil, verifrt.NewError("can not verify CRL signature")
